@@ -142,6 +142,12 @@ func afterCall(prop, fn string) (string, string) {
 	}
 	for i := range outRing {
 		t := &outRing[i]
+		if t.orig != nil && t.call == curCall {
+			// what the call just finished returned is judged from now on (an entry point that runs a history
+			// on one object may legitimately return views of that object between its own steps)
+			t.snap = append(t.snap[:0], t.orig...)
+			continue
+		}
 		if t.orig != nil && t.call < curCall && !bytes.Equal(t.orig, t.snap) {
 			k, d := prop+"/result-changes-later/"+t.fn, fmt.Sprintf("bytes returned by %s (%x...) were changed by a later call of %s (now %x...): the result is not memory of its own", t.fn, trunc16(t.snap), fn, trunc16(t.orig))
 			t.orig = nil
